@@ -501,11 +501,13 @@ func storedAPI(c *ctx, sb segment.Segment, b zh.Batch, spec sx.V) string {
 				}
 			}
 		}
-		if id, err := sb.DocID(n); err != nil || id != nil {
-			bad = fmt.Sprintf("DocID(Count) = %q, %v; want nothing", id, err)
-			return nil
+		for _, d := range []uint64{n, 1 << 32, 1<<32 + 1, 1 << 63} {
+			if id, err := sb.DocID(d); err != nil || id != nil {
+				bad = fmt.Sprintf("DocID(%d) (Count is %d) = %q, %v; want nothing", d, n, id, err)
+				return nil
+			}
 		}
-		for _, d := range []uint64{n, n + 1, n + 1000} {
+		for _, d := range []uint64{n, n + 1, n + 1000, 1 << 32, 1<<32 + 1, 1<<32 + n - 1, 1 << 33, 1 << 63, 1<<63 + 1, 1<<64 - 2} {
 			calls := 0
 			if err := sb.VisitStoredFields(d, func(string, byte, []byte, []uint64) bool { calls++; return true }); err != nil || calls != 0 {
 				bad = fmt.Sprintf("VisitStoredFields(%d) beyond Count made %d callbacks (err %v)", d, calls, err)
